@@ -89,8 +89,8 @@ func runC13(t *Tape, record bool) *RunResult {
 	sA.AddOracle(cA)
 	sA.Run()
 	res := &RunResult{Viol: sA.viol, St: sA.st, Scen: scA.Summary(), Trace: sA.trace, SimCount: 1}
-	if sA.viol != nil || wA == nil || scA.WOAfterRestart != nil {
-		return res // (no differential run when the flag is switched on at a restart)
+	if sA.viol != nil || wA == nil || scA.WOAfterRestart != nil || scA.WOFlipIdent > 0 {
+		return res // (no differential run when the flag is switched on at a restart or while running)
 	}
 	reseedCrypto()
 	tB := NewReplayTape(t.Rec)
